@@ -10,6 +10,8 @@ CONSTANTS
   H = 100
   MaxNow = 4
   MaxNet = 2
+  MaxRxq = 2
+  MaxGwResend = 1
   DupBudget = 1
   LossBudget = 1
   InjBudget = 3
